@@ -175,10 +175,48 @@ ptr2    .fill x2FFF
 """, 0
 
 
-PROGRAMS = [p_store_outside, p_countdown, p_nested_jsr, p_call_rets, p_push_pop, p_selfmod, p_exception, p_halt_middle, p_breaks, p_io,
+def p_call_next(rnd):
+    k = rnd.randrange(3)
+    if k == 0:
+        return """        and r0 r0 #0
+        jsr here
+here    add r0 r0 #1
+        add r0 r0 #1
+        add r0 r0 #1
+        halt
+""", 0
+    if k == 1:
+        return """        and r0 r0 #0
+        call here
+here    add r0 r0 #1
+        add r0 r0 #1
+        add r0 r0 #1
+        halt
+""", 1
+    return """        and r0 r0 #0
+        lea r1 here
+        jsrr r1
+here    add r0 r0 #1
+        add r0 r0 #1
+        halt
+""", 0
+
+
+def p_call_next_loop(rnd):
+    return """        and r0 r0 #0
+        add r2 r2 #3
+loop    jsr next
+next    add r0 r0 #1
+        add r2 r2 #-1
+        brp loop
+        halt
+""", 0
+
+
+PROGRAMS = [p_call_next, p_call_next_loop, p_store_outside, p_countdown, p_nested_jsr, p_call_rets, p_push_pop, p_selfmod, p_exception, p_halt_middle, p_breaks, p_io,
             p_unknown_trap, p_selfloop, p_no_halt, p_high]
 
-LABELS = ["ptr", "ptr2", "loop", "main", "val", "fn", "save", "gn", "done", "target", "newi", "dest", "mid", "start", "second", "lbl",
+LABELS = ["here", "next", "ptr", "ptr2", "loop", "main", "val", "fn", "save", "gn", "done", "target", "newi", "dest", "mid", "start", "second", "lbl",
           "msg", "spin", "tight", "top", "nolabel", "Loop"]
 
 
